@@ -59,7 +59,7 @@ CLAIMED = {
    design="8/C13", technique="Coq proof (arithmetic group codec, alphabet reflection, guards) + differential correspondence + independent bit-level encoder oracle",
    note=NOTE_COMMON + "Go's stdlib codecs are modelled, not verified. A truncated unpadded base32 quantum (1, 3 or 6 characters) is dropped silently by the stdlib and accepted (documented)."),
  "C14": dict(
-   text="Theorems (Props/C14.v): Signature, OfflineSignature (incl. parse back), KeysAndCert (full chain: validates, serialises, parses back with any trailing bytes to the same keys, padding and bytes, for every key-type pair the reader supports), Certificate and Mapping constructors; each documented size/type defect is rejected by constructor and validator alike; the three recorded gaps are *_refuted theorems with their witnesses. Every structure with a constructor and a Validate method is exercised with valid tuples and every single-defect variant, KeysAndCert over every KNOWN (not only supported) type pair with and without excess key-certificate payload.",
+   text="Theorems (Props/C14.v): Signature, OfflineSignature (incl. parse back), KeysAndCert (full chain: validates, serialises, parses back with any trailing bytes to the same keys, padding and bytes, for every key-type pair the reader supports), Certificate and Mapping constructors; each documented size/type defect is rejected by constructor and validator alike; the three recorded gaps are *_refuted theorems with their witnesses. The structural validators and constructor checks of LeaseSet2, EncryptedLeaseSet, OfflineSignature and Signature are REGENERATED from the Go function bodies on every run (coq/Gen/Validators.v, translator/validators.go): constructor checks => Validate and every documented defect refused by both are theorems over the regenerated definitions, and the model's validators are proved equal to them. Every structure with a constructor and a Validate method is exercised with valid tuples and every single-defect variant, KeysAndCert over every KNOWN (not only supported) type pair with and without excess key-certificate payload.",
    design="8/C14", technique="Coq proof over executable constructor/validator model + differential correspondence + constructor/validate/round-trip oracle",
    note=NOTE_COMMON + "Time-dependent expiry checks excluded. Known findings D11 (nil keys), D21 (zero expires) and D22 (key types the reader cannot construct) are reported as KNOWN-FINDING; D16 and D17 were fixed."),
  "C15": dict(
